@@ -56,7 +56,9 @@ def annotations():
         'Concatenate': lambda: Concatenate[int, _P], 'TypeGuard[int]': lambda: TypeGuard[int], 'LiteralString': lambda: LiteralString,
         'Self': lambda: Self, 'Never': lambda: Never, 'NoReturn': lambda: NoReturn, 'Literal[[]]': lambda: Literal[1, (1, 2)],
         'str:ident': lambda: 'Foo', 'str:expr': lambda: 'List[int]', 'str:empty': lambda: '', 'str:nonascii': lambda: 'Käse', 'str:syntax': lambda: 'List[',
-        'str:builtin': lambda: 'int', 'int5': lambda: 5, 'tuple(int,str)': lambda: (int, str), 'list[int]obj': lambda: [int], 'Ellipsis': lambda: ...,
+        'str:builtin': lambda: 'int', 'str:ctx-module': lambda: '_zmod', 'str:ctx-int': lambda: '_znum', 'str:ctx-function': lambda: '_zfun',
+        'str:ctx-None': lambda: '_znone', 'str:ctx-string': lambda: '_zstr', 'str:ctx-list': lambda: '_zlist', 'str:ctx-alias': lambda: '_zalias',
+        'List[str:ctx-module]': lambda: List['_zmod'], 'Optional[str:ctx-int]': lambda: Optional['_znum'], 'int5': lambda: 5, 'tuple(int,str)': lambda: (int, str), 'list[int]obj': lambda: [int], 'Ellipsis': lambda: ...,
         'module': lambda: sys, 'function': lambda: _fn, 'lambda': lambda: (lambda x: x), 'object()': lambda: object(), 'True': lambda: True,
         'float1.5': lambda: 1.5, 'bytes': lambda: b'int', 'dict{}': lambda: {}, 'set{int}': lambda: {int}, 'NotImplemented': lambda: NotImplemented,
         'types.GenericAlias(int,(str,))': lambda: types.GenericAlias(int, (str,)), 'int|None|str': lambda: int | None | str,
